@@ -11,7 +11,7 @@ use libfuzzer_sys::fuzz_target;
 
 /// Panics of the pinned dependency that are recorded as known findings of
 /// C16 (known_findings.jsonl); campaigns step over them.
-const KNOWN: [&str; 2] = ["resources/asres.rs", "publication.rs"];
+const KNOWN: [&str; 2] = ["src/resources/asn.rs", "src/ca/publication.rs"];
 
 fn known(loc: &str) -> bool {
     loc.contains("rpki-") && KNOWN.iter().any(|k| loc.contains(k))
